@@ -507,6 +507,10 @@ var exprs = []string{
 	`{__name__="foo"} > 1`,
 	`a:x / b:y`,
 	`rate(errors_total[5m]) > 0.5`,
+	// multi-line (rendered as literal blocks); every sub-sequence of lines is a valid expression
+	"foo\n+ bar\n> 0",
+	"sum(foo) by (job)\n> 10",
+	"up\n+ foo\n== 0",
 }
 
 func profile(known map[string]string) hist.Profile {
@@ -525,7 +529,7 @@ func profile(known map[string]string) hist.Profile {
 		Weights: map[string]int{
 			"file-add": 2, "file-del": 2, "rename": 3, "rename-edit": 1,
 			"rule-add": 5, "rule-mod": 8, "rule-del": 4, "rule-dup": 2, "rule-swap": 1,
-			"cosmetic": 6, "filectl": 2, "revert": 3,
+			"cosmetic": 6, "filectl": 2, "revert": 3, "rule-trim": 4,
 		},
 		ReorderDisable: !reorderListed,
 		Cosmetics:      true,
@@ -600,7 +604,7 @@ func flagsOf(c Case) []string {
 	if usesOp(h, "file-del") {
 		fl = append(fl, "filedel")
 	}
-	for _, op := range []string{"chain-rename", "chain-rename-back", "chain-edit", "chain-revert", "chain-readd", "chain-cosmetic", "chain-cosmetic-revert", "revert", "cosmetic", "rule-add", "rule-mod", "rule-del", "rule-dup", "rule-swap", "filectl-add", "filectl-del", "filectl-swap"} {
+	for _, op := range []string{"rule-trim-last", "rule-trim-mid", "chain-rename", "chain-rename-back", "chain-edit", "chain-revert", "chain-readd", "chain-cosmetic", "chain-cosmetic-revert", "revert", "cosmetic", "rule-add", "rule-mod", "rule-del", "rule-dup", "rule-swap", "filectl-add", "filectl-del", "filectl-swap"} {
 		if usesOp(h, op) {
 			fl = append(fl, op)
 		}
@@ -627,7 +631,7 @@ func classOf(c Case) string {
 	var keep []string
 	for _, f := range flagsOf(c) {
 		switch f {
-		case "renamed", "rename+edit", "newfile", "filedel", "main+", "samebytes-moved", "samebytes-touched", "samerules-newbytes":
+		case "renamed", "rename+edit", "newfile", "filedel", "main+", "samebytes-moved", "samebytes-touched", "samerules-newbytes", "rule-trim-last", "rule-trim-mid":
 			keep = append(keep, f)
 		}
 	}
